@@ -403,10 +403,13 @@ struct FnEmitter {
             EO["of"] = child(T->getBindTemporaryExpr());
           } else if (auto M = E.getAs<CFGMemberDtor>()) {
             EO["k"] = "MemberDtor"; EO["field"] = plainQual(M->getFieldDecl());
+            EO["ln"] = lineOf(C, FD->getEndLoc());
           } else if (auto Bd = E.getAs<CFGBaseDtor>()) {
             EO["k"] = "BaseDtor"; EO["base"] = typeStr(C, Bd->getBaseSpecifier()->getType());
+            EO["ln"] = lineOf(C, FD->getEndLoc());
           } else if (auto Dl = E.getAs<CFGDeleteDtor>()) {
             EO["k"] = "DeleteDtor"; EO["of"] = child(Dl->getDeleteExpr());
+            EO["ln"] = lineOf(C, Dl->getDeleteExpr()->getBeginLoc());
           } else EO["k"] = "ImplicitDtor";
         } else {
           EO["k"] = "Other"; EO["ek"] = (int)E.getKind();
